@@ -35,6 +35,19 @@ BIN = "/tmp/replay_scratch/target/release/search"
 
 # (name, file, old, new, [properties expected to FIND it], occurrence index)
 MUTS = [
+    ("AdjacencyMatrix::complete allocates one spare block (invisible to every query, visible to ==)", "repr/adjacency_matrix/mod.rs",
+     "        let mut digraph = Self::empty(order);\n\n        for u in 0..order {\n            for v in (u + 1)..order {\n                digraph.add_arc(u, v);\n                digraph.add_arc(v, u);",
+     "        let mut digraph = Self::empty(order);\n        digraph.blocks.push(0);\n\n        for u in 0..order {\n            for v in (u + 1)..order {\n                digraph.add_arc(u, v);\n                digraph.add_arc(v, u);", ["C20"], 0),
+    ("EdgeList == ignores the order (manual PartialEq)", "repr/edge_list/mod.rs",
+     "#[derive(Clone, Debug, Eq, Hash, Ord, PartialEq, PartialOrd)]\npub struct EdgeList {\n    arcs: BTreeSet<(usize, usize)>,\n    order: usize,\n}",
+     "#[derive(Clone, Debug, Eq, Hash, Ord, PartialOrd)]\npub struct EdgeList {\n    arcs: BTreeSet<(usize, usize)>,\n    order: usize,\n}\nimpl PartialEq for EdgeList { fn eq(&self, o: &Self) -> bool { self.arcs == o.arcs } }", ["C20"], 0),
+    ("EdgeList::from(arcs) takes the order from the tails only", "repr/edge_list/mod.rs",
+     "order = order.max(u).max(v);", "order = order.max(u);", ["C20", "C16"], 0),
+    ("AdjacencyListWeighted re-adding keeps the first weight", "repr/adjacency_list_weighted/mod.rs",
+     "let _ = self.arcs[u].insert(v, w);", "let _ = self.arcs[u].entry(v).or_insert(w);", ["C20", "C01"], 0),
+    ("AdjacencyMatrix::toggle leaves a stray padding bit behind (remove via toggle)", "repr/adjacency_matrix/mod.rs",
+     "unsafe { *self.blocks.get_unchecked_mut(i >> 6) ^= Self::mask(i) };",
+     "unsafe { *self.blocks.get_unchecked_mut(i >> 6) ^= Self::mask(i) };\n        if self.order == 3 { if let Some(l) = self.blocks.last_mut() { *l |= 1 << 40; } }", ["C20"], 0),
     ("Tarjan drops the on_stack test (cross arcs into finished components lower the low-link)", "algo/tarjan.rs",
      "if self.on_stack.contains(&v) {", "if true || self.on_stack.contains(&v) {", ["C09"], 0),
     ("Tarjan pop loop breaks before inserting the root", "algo/tarjan.rs",
